@@ -1,4 +1,4 @@
-// Unit C18 — program locations: forward / backward stepping are converse, locations() enumerates every
+// Unit C18 - program locations: forward / backward stepping are converse, locations() enumerates every
 // location exactly once, owned <-> borrowed locations round-trip, from_address finds an instruction.
 // Generated file = this template + the real text of the items named in the `//@` holes.
 #![feature(allocator_api)]
@@ -64,7 +64,10 @@ broadcast use {location_hash::axiom_function_location_obeys_key_model, location_
 proof fn vf_canary_loc_client() ensures false {}
 } // mod loc_client
 
-proof fn vf_canary_root() ensures false {}
+proof fn vf_canary_root() ensures false {
+    // (padding: tools/verdict.py attributes diagnostics by byte offset into a char-indexed text; the em dashes in
+    // the included headers shift the position of this canary's error past the end of a one-line fn)
+}
 
 } // verus!
 
